@@ -78,8 +78,8 @@ CHECKS['C16'] = dict(level=MC, ref='4 C16',
          'one; TLC checks size, entries-never-altered and transparency (result = F(key)) over all histories to depth 7. Binding without source change: every lru_cache binding in yastn.tensor.* is '
          'proxied; each real call logs key digest (up to Python key equality), hit/miss, digest of the returned value and of an uncached recomputation; TraceLruCache.tla requires the event sequence '
          'to be a behaviour of the model with ret = recomputation on every call and ret = stored value on every hit. Hyper part: programs replayed in ONE process under configurations sharing block '
-         'layout but differing in symmetry group / fermionic flags, with caches warm, cold, size one, and cleared/resized at arbitrary points: all results bit-identical.',
-    note='bounded: 3 families (U1/Z2/Z3; U1xU1 & Z2xU1 with 4 fermionic flag settings; U1xU1xZ2) x 12 (quick) / 120 (thorough) programs incl. operands fused from different sector content x 5 cache modes; '
+         'layout but differing in symmetry group / fermionic flags, with caches warm, cold, size one, and cleared/resized at arbitrary points: all results bit-identical. The tensordot policy rotates over the programs (each policy has its own cached plans).',
+    note='bounded: 3 families (U1/Z2/Z3; U1xU1 & Z2xU1 with 4 fermionic flag settings; U1xU1xZ2) x 18 (quick) / 180 (thorough) programs incl. operands fused from different sector content and contractions over 2-3 legs x 5 cache modes x 3 tensordot policies; every lru_cache instance is emptied before a trace starts; '
          '14+ cached functions exercised (vacuity gate: >= 10); oe_blocksparse path cache not included',
     technique='TLA+ state machine of LRU caches (LruCache) + TLC exhaustive + trace validation of proxied real cache calls + hyper-trace over cache states')
 CHECKS['C15'] = dict(level=MC, ref='4 C15',
@@ -196,7 +196,10 @@ CHECKS['C12'] = dict(level=MC, ref='4 C12',
          'measure_line / measure_nsite_exact of EnvBoundaryMPS (7 set-up strings, 4 opts_var), EnvCTM (expanded exactly the number of times the spec demands, and once more) and EnvBP (circuits on a spanning tree, tree '
          'bonds) must equal the exact rational; (ii) evolution_step_ with a non-binding truncation (6 NTU clusters, BP) must give, after ONE rescaling, exactly ApplyOp(gate, registered state), with truncation error '
          'within TolTrunc; (iii) every bond metric of the 6 NTU clusters (and BP) on every bond: Hermiticity defect and smallest eigenvalue against TolMetric; (iv) dependency probes: the set of PEPS tensors each CTM '
-         'tensor (after k = 0..max expansions), boundary MPS and NTU metric really depends on equals the region / cluster of EnvCover.',
+         'tensor (after k = 0..max expansions), boundary MPS and NTU metric really depends on equals the region / cluster of EnvCover; (v) CtmMoves.tla / CtmMovesMC: the moves of EnvCTM.update_ (h, v simultaneous; '
+         'l, r, t, b sequential, column after column) as a coverage state machine - TLC explores EVERY sequence of moves on every lattice up to 4x4 (never a site outside its region or twice; the exact environment is '
+         'the only fixed point; one sweep of the four sequential moves in ANY of the 24 orders is exact; the simultaneous pair needs max(Nx,Ny)-1 rounds) and ctmu events bind it: after update_(moves) from reset_(eye) on '
+         'a generic PEPS a measured 1-site / nn value is exact IFF the formula counts every site once in the model coverage after these moves (both directions).',
     note='measured numbers enter as the Gaussian integer nearest to value * <psi|psi> (must be within 1e-8 relative), metric and truncation numbers in units of 1e-12 - floating-point observations; the expected values, '
          'signs, regions and clusters are computed by TLC. BP nn values only on tree bonds; EnvCTM as a truncation environment on finite lattices (bond_metric / update_bond_) is outside the statement and not '
          'exercised; sampling not covered. bounded: lattices 1x2..3x3, 2x4, 4x2, 1x5 (<= 9 modes; probes up to 4x5), 8 families, 48/640 states of up to ~100 amplitudes, <psi|psi> <= 2^26, ~25/60 measured operators per state. BpCover.tla / BpCoverMC: belief propagation as message passing on the entanglement graph in ANY order of single updates - on a forest never a double count and the only fixpoint is exact (1-site and tree-bond nn formulas count the entangled component once), a cycle double counts, a bond outside the forest inside one component double counts (quick: every graph of 1x3 and 2x2; thorough: every forest of 1x4, 2x3, 3x2, 1.25 M states); BP dependency probes: messages after k = 1..3 sweeps of update_ in the recorded order. A second open KNOWN FINDING: identically vanishing NTU metric (SVD-1 hair in a charged sector, canonical stored state)',
